@@ -56,7 +56,7 @@ Init == /\ live = [x \in Routers |-> NoKeys]
         /\ errs = [x \in Routers |-> 0]
         /\ act = [name |-> "init"]
 
-Msg(to, kind, id, share, stamp) == [to |-> to, kind |-> kind, id |-> id, share |-> share, stamp |-> stamp]
+Msg(to, kind, id, share, stamp) == [to |-> to, kind |-> kind, id |-> id, share |-> share, stamp |-> stamp, n |-> 0]
 
 (* handleTunPacket: a local packet for the peer while encryption is not set *)
 (* up and no exchange is active starts a hello.                              *)
@@ -130,11 +130,12 @@ Drop(m) == /\ m \in net /\ ndrop < MaxDrops
            /\ act' = [name |-> "drop", m |-> m]
            /\ UNCHANGED <<live, pending, clock, latest, fresh, nstart, ndup, errs>>
 
-(* Duplication: the message is handled but stays in flight once more.        *)
-Dup(m) == /\ m \in net /\ ndup < MaxDups
+(* Duplication: a second copy of a message in flight (n = 1).                *)
+Dup(m) == /\ m \in net /\ m.n = 0 /\ ndup < MaxDups
+          /\ [m EXCEPT !.n = 1] \notin net
           /\ ndup' = ndup + 1
           /\ act' = [name |-> "dup", m |-> m]
-          /\ net' = net \cup {[m EXCEPT !.to = m.to]}   \* (a set: the copy is delivered by a second Recv of a stale stamp)
+          /\ net' = net \cup {[m EXCEPT !.n = 1]}
           /\ UNCHANGED <<live, pending, clock, latest, fresh, nstart, ndrop, errs>>
 
 (* The active exchange times out (30 s) / its cool-down ends (5 s).          *)
@@ -165,6 +166,7 @@ Enabled2 == {<<"start", x>> : x \in {r \in Routers : nstart[r] < MaxStarts /\ ~l
             \cup {<<"data", x>> : x \in {r \in Routers : live[r].set /\ ~live[Peer(r)].set /\ errs[Peer(r)] = 0}}
             \cup {<<"recv", m>> : m \in net} \cup {<<"recv", m>> : m \in net}
             \cup (IF ndrop < MaxDrops THEN {<<"drop", m>> : m \in net} ELSE {})
+            \cup (IF ndup < MaxDups THEN {<<"dup", m>> : m \in {x \in net : x.n = 0 /\ [x EXCEPT !.n = 1] \notin net}} ELSE {})
 NextSim == /\ ndrop >= 0
            /\ Enabled2 # {}
            /\ \E e \in {RandomElement(Enabled2)} :
@@ -173,11 +175,12 @@ NextSim == /\ ndrop >= 0
                   [] e[1] = "data" -> DataToKeyless(e[2])
                   [] e[1] = "recv" -> Recv(e[2])
                   [] e[1] = "drop" -> Drop(e[2])
+                  [] e[1] = "dup" -> Dup(e[2])
 DumpStep == PrintT("OUT " \o ToJson([a |-> act', bad |-> Mismatch', net |-> net', live |-> live',
                                       first |-> (fresh = 1 /\ net = {} /\ nstart["A"] + nstart["B"] = 0)]))
 
 Next == \/ \E x \in Routers : Start(x) \/ Expire(x) \/ DataToKeyless(x)
-        \/ \E m \in net : Recv(m) \/ Drop(m)
+        \/ \E m \in net : Recv(m) \/ Drop(m) \/ Dup(m)
 
 Spec == Init /\ [][Next]_vars
 
